@@ -201,6 +201,7 @@ class SLoop(VLoop):
                 if len(pool) > 1:
                     self.multi_choice_points += 1
                 self.trace.append(tuple(order))
+                self.db_completions = getattr(self, "db_completions", 0) + sum(1 for i in order if pool[i][0] == "db")
                 with self._lk:
                     for i in sorted(order, reverse=True):
                         self._pool.pop(i)
@@ -230,3 +231,30 @@ def fifo_all_strategy(loop, pool):
 
 def one_at_a_time_strategy(loop, pool):
     return [loop.rng.randrange(len(pool))]
+
+
+def make_slow_db_strategy(k):
+    """Injected delay at an existing suspension point: the k-th database round
+    trip of the run is slow -- its completion (and, the database thread being one
+    FIFO, every later one) is held back for as long as anything else can happen;
+    everything else is delivered as it comes.  A possible timing of the real
+    program: one statement that takes long."""
+
+    def slow_db_strategy(loop, pool):
+        done = getattr(loop, "_db_released", 0)
+        db = [i for i, p in enumerate(pool) if p[0] == "db"]
+        other = [i for i, p in enumerate(pool) if p[0] != "db"]
+        out = []
+        if db and done <= k < done + len(db):
+            # the slow one is parked here: release what precedes it, and everything that is not a database completion
+            out = db[: k - done] + other
+            if not out:
+                out = db  # nothing else can happen: the slow statement completes
+                loop._slow_db_hit = True
+        else:
+            out = list(range(len(pool)))
+        loop._db_released = done + sum(1 for i in out if pool[i][0] == "db")
+        return out
+
+    slow_db_strategy.__name__ = f"slow_db_{k}"
+    return slow_db_strategy
